@@ -540,7 +540,17 @@ def snippet(P, rec, names, ns_paths):
     if k == "NamespaceAccess":
         return "", f"{tok_literal(rec, 'NamespaceAccess.0', '1')}::nosuchname"
     if k == "DictLiteral":
-        return "", f"Dict[{tok_literal(rec, 'DictLiteral.0', '1')} => 1]"
+        items = f[0].items if isinstance(f[0], Vec) else []
+        if len(items) <= 1:
+            return "", f"Dict[{tok_literal(rec, 'DictLiteral.0', '1')} => 1]"
+        pairs = []
+        for i in range(len(items)):
+            kl = tok_literal(rec, f"DictLiteral.0[{i}].key", f'"k{i}"')
+            vl = tok_literal(rec, f"DictLiteral.0[{i}].value", "1")
+            if kl is None or vl is None:
+                return None
+            pairs.append(f"{kl} => {vl}")
+        return "", "Dict[" + ", ".join(pairs) + "]"
     if k == "Match":
         return "", f"match {tok_literal(rec, 'Match.0', '1')} {{ Some(_) => {{ }} }}"
     if k == "StructLiteral":
@@ -658,4 +668,13 @@ def snippet_alternatives(P, rec, names, ns_paths, limit=8):
                     break
     for k in ("hint_type", "kind_override", "lit_variant", "no_model_ints"):
         rec.pop(k, None)
+    if rec["job"][0] == "other":
+        # a receiver that is an enum constructor may be *stale*: its enum was redefined with fewer variants after the
+        # constructor was bound (definitions load first, old variant names stay bound)
+        node = (rec["token_values"].get("recv#") or (None, None))[1]
+        kinds = {rec["known_tags"].get(getattr(node, "id", None))} | set(rec.get("kind_override", {}).values())
+        n = rec["job"][2]
+        args = ", ".join(str(10 + i) for i in range(n))
+        if node is None or kinds & {"EnumConstructor", None}:
+            out.append(("enum VerifStale { VsA, VsB, VsC(Int) }\nenum VerifStale { VsA }", f"VsC({args})"))
     return out
